@@ -646,7 +646,8 @@ pub fn e2_jobs(prop: &str, tier: Tier) -> Vec<E2Job> {
                                 v.push(l);
                             }
                             // the same panic carrying a typed payload (`panic_any` of a type that is neither &str nor String)
-                            if c.len() == 1 {
+                            // (quick tier: for plans of <= 2 operations; thorough tier: for every plan)
+                            if c.len() == 1 && (!q || p.len() <= 2) {
                                 s.panic_typed = true;
                                 v.push(s);
                             }
@@ -672,7 +673,14 @@ pub fn e2_jobs(prop: &str, tier: Tier) -> Vec<E2Job> {
                         }
                     }
                 }
-                jobs.push(E2Job { label: "batches whose controller dispatches the inner plan 2-3 times (hand-written / MultiDispatcher), single panicking system, then a clean dispatch".into(), scenarios: panic_scen(&plans, &[Mode::Dispatch, Mode::Seq], false), bounds: b(1), delay: false });
+                // a batch that depends on an outer system whose NAME is also used by a system inside the batch (the two
+                // builders have separate name spaces): the dependency is the outer one
+                for multi in [false, true] {
+                    let batch = Op::Batch(crate::spec::BatchSpec { name: "b".into(), deps: vec!["i0".into()], ctrl: crate::spec::CtrlData::Unit, times: 1, multi, fetch_data: false, inner: vec![sy("i0", &[], &[1], &[]), sy("i1", &[], &[], &["i0"])] });
+                    plans.push(vec![sy("i0", &[], &[0], &[]), batch.clone()]);
+                    plans.push(vec![sy("i0", &[], &[], &[]), sy("i1", &[], &[], &[]), batch, sy("after", &[], &[], &["b"])]);
+                }
+                jobs.push(E2Job { label: "batches whose controller dispatches the inner plan 2-3 times (hand-written / MultiDispatcher), batches depending on an outer system whose name is re-used inside, single panicking system, then a clean dispatch".into(), scenarios: panic_scen(&plans, &[Mode::Dispatch, Mode::Seq], false), bounds: b(1), delay: false });
             }
             {
                 // unnamed systems among named ones (the empty name is not a name: ids, dependency look-ups)
